@@ -586,7 +586,7 @@ var rR13 = RuleRef{Name: "R13", Doc: "reply-kind provenance: line-framed reply c
 							if cv, ok := arg.(*ssa.Convert); ok {
 								arg = cv.X
 							}
-							if ln, ok := isBuiltinCall(arg, "len"); ok && canon(ln.Call.Args[0]) == "r.data" {
+							if ln, ok := isBuiltinCall(arg, "len"); ok && canon(ln.Call.Args[0]) == "recv.data" {
 								hdr = true
 							}
 						}
@@ -594,7 +594,7 @@ var rR13 = RuleRef{Name: "R13", Doc: "reply-kind provenance: line-framed reply c
 				}
 				var rands [8]*ssa.Value
 				for _, op := range in.Operands(rands[:0]) {
-					if *op == nil || canon(*op) != "r.data" {
+					if *op == nil || canon(*op) != "recv.data" {
 						continue
 					}
 					if _, isLoad := (*op).(*ssa.UnOp); !isLoad {
@@ -629,13 +629,13 @@ var rR13 = RuleRef{Name: "R13", Doc: "reply-kind provenance: line-framed reply c
 						if cv, ok := arg.(*ssa.Convert); ok {
 							arg = cv.X
 						}
-						if ln, ok := isBuiltinCall(arg, "len"); ok && canon(ln.Call.Args[0]) == "r.data" {
+						if ln, ok := isBuiltinCall(arg, "len"); ok && canon(ln.Call.Args[0]) == "recv.data" {
 							hdr = true
 						}
 					}
 					if x.Call.IsInvoke() && x.Call.Method.Name() == "ToBytes" {
 						// element being encoded must be an element of r.data
-						if strings.HasPrefix(canon(x.Call.Value), "r.data[") {
+						if strings.HasPrefix(canon(x.Call.Value), "recv.data[") {
 							ranged = true
 						}
 					}
